@@ -21,7 +21,8 @@ RULE = ("undisturbed: (length, block-size sequence, CRC on/off, write style) wit
         "is followed by another segment of the same non-final sub-block must be repaired (normal return, payload exact); any "
         "other pattern may fail, but a normal return implies store == payload. Signature = (kind, length class, block "
         "sequence class, crc, loss class); all are non-trivial except single-segment undisturbed transfers.")
-ASSUMPTIONS = ["reference server has no timers: a lost last segment of a sub-block is undetectable for it (may-fail class)",
+ASSUMPTIONS = ["chunked writes go through the default 1024-byte buffer (smaller buffers break chunked block downloads even undisturbed: the raw stream's None-return protocol, API limitation)",
+               "reference server has no timers: a lost last segment of a sub-block is undetectable for it (may-fail class)",
                "payload written with a declared size equal to its length"]
 REQUIRED = {"undisturbed_compared": 100, "loss_cases": 100, "must_repair_cases": 30, "server_frames_validated": 2000}
 
@@ -36,7 +37,7 @@ def lenclass(n):
 def plan(tier, seed):
     if tier == "quick":
         lengths = list(range(1, 65)) + [69, 70, 71, 888, 889, 890, 896, 1000]
-        loss_pairs = [(100, "5"), (50, "3-5-2"), (23, "2"), (200, "10-4"), (36, "7"), (64, "127")]
+        loss_pairs = [(100, "5"), (50, "3-5-2"), (23, "2"), (200, "10-4"), (36, "7"), (64, "127"), (2500, "127"), (1200, "10-4")]
         multi = 40
     else:
         lengths = list(range(1, 130)) + [888, 889, 890, 895, 896, 897, 1777, 1778, 1779, 4096, 10000, 20000]
@@ -73,7 +74,7 @@ def do_block_download(rig, c, data):
             fp.close()
     elif style == "chunks":
         rng = random.Random(repr(("c12chunks", c.get("seed"))))
-        with sdo.open(c["mux"][0], c["mux"][1], "wb", **kw) as fp:
+        with sdo.open(c["mux"][0], c["mux"][1], "wb", buffering=c.get("buffering", 1024), **kw) as fp:
             pos = 0
             while pos < len(data):
                 k = rng.randint(1, 200)
@@ -208,6 +209,14 @@ def run_loss(ctx, desc):
         c = dict(c0, kind="loss-segment", k=k, loss_class=cls)
         ctx.case((c["kind"], lenclass(n), seqname, cls, it["seq"] == 1))
         one(c, lambda rig, k=k: faults.OneShot(segment_pred(rig), k, faults.drop), must)
+        # the same loss while the caller feeds the stream in small chunks through a small buffer, with and without CRC
+        if n > 1100:
+            # (payloads beyond the default buffer size, so that the BufferedWriter refills its buffer while sub-blocks
+            # are open; smaller buffers make chunked block downloads fail even undisturbed - API limitation, not generated)
+            crc = bool(k % 2)
+            c = dict(c0, kind="loss-segment", k=k, loss_class=cls, style="chunks", crc=crc)
+            ctx.case((c["kind"], lenclass(n), seqname, cls, "chunked", crc))
+            one(c, lambda rig, k=k: faults.OneShot(segment_pred(rig), k, faults.drop), must)
     # every lost acknowledge
     for k in range(n_acks):
         c = dict(c0, kind="loss-ack", k=k, loss_class="ack")
